@@ -25,60 +25,68 @@ vars == <<c, l>>
 Iota(n) == [i \in 1..n |-> i]
 MapN(Op(_), n) == FoldLeft(LAMBDA acc, i : Append(acc, Op(i)), <<>>, Iota(n))
 FlatMapN(Op(_), n) == FoldLeft(LAMBDA acc, i : acc \o Op(i), <<>>, Iota(n))
+\* TLC passes operator arguments lazily and re-evaluates them at every use (ModP uses its
+\* argument many times): every nested argument is forced through a tuple + FoldLeft first
+Force2(Op(_, _), a, b) == FoldLeft(LAMBDA acc, p : Op(p[1], p[2]), 0, << <<a, b>> >>)
+Force1(Op(_), a) == FoldLeft(LAMBDA acc, x : Op(x), 0, <<a>>)
+A(a, b) == Force2(AddP, a, b)
+S(a, b) == Force2(SubP, a, b)
+M(a, b) == Force2(MulP, a, b)
 Prod(xs) == FoldLeft(LAMBDA acc, x : MulP(acc, x), One8, xs)
 Sum(xs) == FoldLeft(LAMBDA acc, x : AddP(acc, x), Zero8, xs)
 RECURSIVE IPow(_, _)
 IPow(a, e) == IF e = 0 THEN 1 ELSE a * IPow(a, e - 1)
 Wr(e, i) == e.w[i + 1]                               \* wire i
 XW(e, s) == <<e.w[s + 1], e.w[s + 2]>>               \* extension element on wires s, s+1 (D = 2)
-ESub2(a, b) == <<SubP(a[1], b[1]), SubP(a[2], b[2])>>
-EAdd2(a, b) == <<AddP(a[1], b[1]), AddP(a[2], b[2])>>
-EScal2(k, a) == <<MulP(k, a[1]), MulP(k, a[2])>>
+ESub2(a, b) == Force2(LAMBDA x, y : <<SubP(x[1], y[1]), SubP(x[2], y[2])>>, a, b)
+EAdd2(a, b) == Force2(LAMBDA x, y : <<AddP(x[1], y[1]), AddP(x[2], y[2])>>, a, b)
+EScal2(k, a) == Force2(LAMBDA x, y : <<MulP(x, y[1]), MulP(x, y[2])>>, k, a)
+EMul2(a, b) == Force2(LAMBDA x, y : ExtMul(2, x, y), a, b)
 
 \* ---- the gate definitions ---------------------------------------------------------------
 ArithDef(e) ==
-  MapN(LAMBDA i : SubP(Wr(e, 4*(i-1) + 3),
+  MapN(LAMBDA i : S(Wr(e, 4*(i-1) + 3),
                        Sum(<<Prod(<<Wr(e, 4*(i-1)), Wr(e, 4*(i-1) + 1), e.c[1]>>), Prod(<<Wr(e, 4*(i-1) + 2), e.c[2]>>)>>)),
        e.g.n)
 
 BaseSumDef(e) ==
-  <<SubP(FoldLeft(LAMBDA s, i : AddP(MulP(s, F8(e.g.b)), Wr(e, e.g.l - i + 1)), Zero8, Iota(e.g.l)), Wr(e, 0))>>
-  \o MapN(LAMBDA i : Prod(MapN(LAMBDA v : SubP(Wr(e, i), F8(v - 1)), e.g.b)), e.g.l)
+  <<S(FoldLeft(LAMBDA s, i : A(M(s, F8(e.g.b)), Wr(e, e.g.l - i + 1)), Zero8, Iota(e.g.l)), Wr(e, 0))>>
+  \o MapN(LAMBDA i : Prod(MapN(LAMBDA v : S(Wr(e, i), F8(v - 1)), e.g.b)), e.g.l)
 
-ConstantDef(e) == MapN(LAMBDA i : SubP(e.c[i], Wr(e, i - 1)), e.g.n)
-PiDef(e) == MapN(LAMBDA i : SubP(Wr(e, i - 1), e.h[i]), 4)
+ConstantDef(e) == MapN(LAMBDA i : S(e.c[i], Wr(e, i - 1)), e.g.n)
+PiDef(e) == MapN(LAMBDA i : S(Wr(e, i - 1), e.h[i]), 4)
 
-ExpoPrev(e, i) == IF i = 0 THEN One8 ELSE MulP(Wr(e, 2 + e.g.n + i - 1), Wr(e, 2 + e.g.n + i - 1))
+ExpoPrev(e, i) == IF i = 0 THEN One8 ELSE M(Wr(e, 2 + e.g.n + i - 1), Wr(e, 2 + e.g.n + i - 1))
 ExpoDef(e) ==
-  MapN(LAMBDA k : SubP(Prod(<<ExpoPrev(e, k - 1),
-                              AddP(MulP(Wr(e, 1 + (e.g.n - k)), Wr(e, 0)), SubP(One8, Wr(e, 1 + (e.g.n - k))))>>),
+  MapN(LAMBDA k : S(Prod(<<ExpoPrev(e, k - 1),
+                              A(M(Wr(e, 1 + (e.g.n - k)), Wr(e, 0)), S(One8, Wr(e, 1 + (e.g.n - k))))>>),
                        Wr(e, 2 + e.g.n + k - 1)), e.g.n)
-  \o <<SubP(Wr(e, 1 + e.g.n), Wr(e, 2 + e.g.n + e.g.n - 1))>>
+  \o <<S(Wr(e, 1 + e.g.n), Wr(e, 2 + e.g.n + e.g.n - 1))>>
 
 RaVs(e) == IPow(2, e.g.bits)
 RaStride(e) == 2 + RaVs(e)
 RaBit(e, i, cp) == RaStride(e) * e.g.copies + e.g.extra + cp * e.g.bits + i
 RaDef(e) ==
   FlatMapN(LAMBDA cp :
-      MapN(LAMBDA i : MulP(Wr(e, RaBit(e, i - 1, cp - 1)), SubP(Wr(e, RaBit(e, i - 1, cp - 1)), One8)), e.g.bits)
-      \o <<SubP(FoldLeft(LAMBDA s, i : AddP(AddP(s, s), Wr(e, RaBit(e, e.g.bits - i, cp - 1))), Zero8, Iota(e.g.bits)),
+      MapN(LAMBDA i : M(Wr(e, RaBit(e, i - 1, cp - 1)), S(Wr(e, RaBit(e, i - 1, cp - 1)), One8)), e.g.bits)
+      \o <<S(FoldLeft(LAMBDA s, i : A(A(s, s), Wr(e, RaBit(e, e.g.bits - i, cp - 1))), Zero8, Iota(e.g.bits)),
                 Wr(e, RaStride(e) * (cp - 1)))>>
-      \o <<SubP(FoldLeft(LAMBDA items, i :
-                           MapN(LAMBDA j : AddP(items[2*j - 1],
-                                                MulP(Wr(e, RaBit(e, i - 1, cp - 1)), SubP(items[2*j], items[2*j - 1]))),
+      \o <<S(FoldLeft(LAMBDA items, i :
+                           MapN(LAMBDA j : A(items[2*j - 1],
+                                                M(Wr(e, RaBit(e, i - 1, cp - 1)), S(items[2*j], items[2*j - 1]))),
                                 Len(items) \div 2),
                          SubSeq(e.w, RaStride(e)*(cp-1) + 3, RaStride(e)*(cp-1) + 2 + RaVs(e)), Iota(e.g.bits))[1],
                 Wr(e, RaStride(e) * (cp - 1) + 1))>>, e.g.copies)
-  \o MapN(LAMBDA i : SubP(e.c[i], Wr(e, RaStride(e) * e.g.copies + i - 1)), e.g.extra)
+  \o MapN(LAMBDA i : S(e.c[i], Wr(e, RaStride(e) * e.g.copies + i - 1)), e.g.extra)
 
 RedAcc(e, i) == IF i = e.g.n - 1 THEN 0 ELSE 3 * 2 + e.g.n + 2 * i
 ReducingDef(e) ==
-  FlatMapN(LAMBDA i : ESub2(EAdd2(ExtMul(2, IF i = 1 THEN XW(e, 4) ELSE XW(e, RedAcc(e, i - 2)), XW(e, 2)),
+  FlatMapN(LAMBDA i : ESub2(EAdd2(EMul2(IF i = 1 THEN XW(e, 4) ELSE XW(e, RedAcc(e, i - 2)), XW(e, 2)),
                                   <<Wr(e, 6 + i - 1), Zero8>>),
                             XW(e, RedAcc(e, i - 1))), e.g.n)
 
 MulExtDef(e) ==
-  FlatMapN(LAMBDA i : ESub2(XW(e, 6*(i-1) + 4), EScal2(e.c[1], ExtMul(2, XW(e, 6*(i-1)), XW(e, 6*(i-1) + 2)))), e.g.n)
+  FlatMapN(LAMBDA i : ESub2(XW(e, 6*(i-1) + 4), EScal2(e.c[1], EMul2(XW(e, 6*(i-1)), XW(e, 6*(i-1) + 2)))), e.g.n)
 
 Def(e) ==
   CASE e.kind = "arith" -> ArithDef(e)
@@ -94,9 +102,9 @@ Known == {"arith", "basesum", "constant", "pi", "expo", "ra", "reducing", "mulex
 GateOk(e) ==
   /\ e.kind \in Known
   /\ \A i \in 1..Len(e.out) : Is64(e.out[i])
-  /\ LET d == Def(e) IN
-     /\ Len(d) = Len(e.out)
-     /\ \A i \in 1..Len(d) : EqP(d[i], e.out[i])
+  /\ \A d \in {Def(e)} :            \* (binds the evaluated definition once)
+       /\ Len(d) = Len(e.out)
+       /\ \A i \in 1..Len(d) : EqP(d[i], e.out[i])
 
 Init == c = 0 /\ l = 0
 Next == \/ c = 0 /\ l = 0 /\ c' \in 1..NChunks /\ l' = 0
